@@ -61,6 +61,9 @@ def frames_for(setname):
         seed(3, 3, (2, 2, 2, 2, 2, 2), ())
         # dense ambiguous grammars with the error symbol (default-limit witnesses)
         seed(1, 1, (2, 3, 1, 1), ((3, 0),)); seed(1, 1, (2, 3, 1, 2), ((3, 1),)); seed(1, 2, (2, 3, 1, 1), ((3, 0),)); seed(1, 1, (3, 2, 1, 1), ((2, 0),)); seed(1, 1, (2, 1, 1), ((2, 0),)); seed(1, 1, (3, 1, 1), ((2, 0),)); seed(2, 1, (2, 3, 1, 1), ((3, 0),))
+    if setname == 'big':   # medium-size frames explored by a fixed strided corpus (DESIGN 12.7j): shapes beyond the exhaustive bounds
+        add(4, 3, (2, 1, 3, 0, 2, 1, 3, 1)); add(5, 3, (1, 2, 2, 0, 3, 1, 2, 0, 1, 2)); add(3, 4, (3, 3, 1, 2, 0, 2, 1)); add(4, 4, (2, 2, 2, 1, 1, 0, 3, 3, 1))
+        add(4, 3, (2, 1, 3, 0, 2, 3, 1), ((5, 1),)); add(3, 3, (2, 0, 3, 1, 2, 4), ((2, 1),)); add(2, 4, (3, 3, 3, 3, 1, 2, 1)); add(6, 2, (1, 1, 2, 2, 1, 0, 2, 1, 1, 2, 0))
     if setname == 'big':   # realistic grammars (JSON, layered expression grammar, operator grammar with 3 precedence levels, statements with recovery)
         seed(6, 11, (1, 1, 1, 1, 1, 1, 1, 2, 3, 1, 3, 3, 2, 3, 1, 3), ())
         seed(6, 9, (3, 3, 1, 3, 3, 1, 2, 1, 3, 1, 4, 0, 1, 1, 3), ())
